@@ -1,3 +1,265 @@
-/- C15: property theorems (stub — not built yet) -/
+import RSVerif.Lemmas.Slot
+import RSVerif.Lemmas.SlotWitness
+import RSVerif.Lemmas.SlotLatWitness
+/-
+C15 — Key-to-slot mapping follows the Redis Cluster specification; the checkpoint key chosen for a
+shard hashes inside the shard's slot range and is excluded by the key filter.
+Property theorems only (helper lemmas live in RSVerif.Lemmas.Slot*, the 16384-row witness check in
+RSVerif.Lemmas.SlotWitness0..7 and, for the latency keys, RSVerif.Lemmas.SlotLatWitness0..7).
+-/
 namespace RSVerif.Properties.C15
+open RSVerif RSVerif.Spec.Slot RSVerif.Slot RSVerif.Lemmas.Slot
+
+/-! ### 1. Both regenerated CRC16 tables are the bitwise CRC-16/XMODEM of their index -/
+
+theorem table_size_common : Generated.crc16TableCommon.size = 256 := by decide +kernel
+theorem table_size_latency : Generated.crc16TableLatency.size = 256 := by decide +kernel
+
+theorem crc16_table_spec_common :
+    ∀ i : Fin 256, Generated.crc16TableCommon[i.val]! = bitStep8 (UInt16.ofNat i.val <<< 8) := by
+  decide +kernel
+
+theorem crc16_table_spec_latency :
+    ∀ i : Fin 256, Generated.crc16TableLatency[i.val]! = bitStep8 (UInt16.ofNat i.val <<< 8) := by
+  decide +kernel
+
+/-- both regenerated tables, in one statement -/
+theorem crc16_table_spec :
+    (∀ i : Fin 256, Generated.crc16TableCommon[i.val]! = bitStep8 (UInt16.ofNat i.val <<< 8)) ∧
+    (∀ i : Fin 256, Generated.crc16TableLatency[i.val]! = bitStep8 (UInt16.ofNat i.val <<< 8)) :=
+  ⟨crc16_table_spec_common, crc16_table_spec_latency⟩
+
+/-! ### 2. Hence both `crc16` copies equal the specification on every byte string -/
+
+theorem crc16_common_eq_spec (bs : Bytes) : crc16Common bs = crc16 bs :=
+  updateT_eq_spec _ crc16_table_spec_common 0 bs
+
+theorem crc16_latency_eq_spec (bs : Bytes) : crc16Latency bs = crc16 bs :=
+  updateT_eq_spec _ crc16_table_spec_latency 0 bs
+
+/-- all CRC16 copies in the tool agree -/
+theorem crc16_copies_agree (bs : Bytes) : crc16Common bs = crc16Latency bs := by
+  rw [crc16_common_eq_spec, crc16_latency_eq_spec]
+
+/-! ### 3. KeyToSlot is the Redis Cluster slot of every key -/
+
+/-- the masks coded in KeyToSlot and findKeyInRange are 16384 - 1 (re-checked against the source) -/
+theorem masks_spec : Generated.C15.keyToSlotMaskTag = 0x3fff ∧ Generated.C15.keyToSlotMaskKey = 0x3fff ∧
+    Generated.C15.latencyMask = 0x3fff := by decide
+
+theorem keyToSlot_eq_spec (k : Bytes) : (keyToSlot k).toNat = slotSpec k := by
+  unfold keyToSlot slotSpec hashedPart
+  simp only [hashtagOf_eq, masks_spec.1, masks_spec.2.1, crc16_common_eq_spec]
+  cases hashTag k with
+  | none => (simp [slots]; exact Nat.and_two_pow_sub_one_eq_mod _ 14)
+  | some t =>
+    cases t with
+    | nil => (simp [slots]; exact Nat.and_two_pow_sub_one_eq_mod _ 14)
+    | cons a ts => (simp [slots]; exact Nat.and_two_pow_sub_one_eq_mod _ 14)
+
+theorem keyToSlot_lt (k : Bytes) : (keyToSlot k).toNat < 16384 := by
+  rw [keyToSlot_eq_spec]; exact Nat.mod_lt _ (by decide)
+
+/-- the slot filter of full sync (dbSync/syncRDB.go) decides by the Redis Cluster slot: with a slot list
+    configured, an entry that survives the key filter is restored iff its specification slot is listed -/
+theorem fullsync_slot_filter (black white : List Bytes) (allowed : List Nat) (k : Bytes)
+    (hk : filterKey black white k = false) (hl : allowed ≠ []) :
+    fullSyncSkips black white allowed k = !(allowed.contains (slotSpec k)) := by
+  have : allowed.length ≠ 0 := fun h => hl (List.eq_nil_of_length_eq_zero h)
+  simp [fullSyncSkips, hk, filterSlot, keyToSlot_eq_spec, this]
+
+/-- non-vacuity / sanity: the specification on the keys the cluster specification discusses -/
+example : slotSpec "123456789".toUTF8.toList = 12739 := by decide +kernel   -- CRC16("123456789") = 0x31C3
+example : slotSpec "{user1000}.following".toUTF8.toList = slotSpec "{user1000}.followers".toUTF8.toList := by decide +kernel
+example : slotSpec "foo{}{bar}".toUTF8.toList = (crc16 "foo{}{bar}".toUTF8.toList).toNat % 16384 := by decide +kernel
+example : slotSpec "foo{{bar}}zap".toUTF8.toList = (crc16 "{bar".toUTF8.toList).toNat % 16384 := by decide +kernel
+example : slotSpec "foo{bar}{zap}".toUTF8.toList = (crc16 "bar".toUTF8.toList).toNat % 16384 := by decide +kernel
+
+/-! ### 4. D17 — the pinned `KeyToSlot` used the LAST `{…}` pair (repaired by fixes/C15-first-tag.patch) -/
+
+/-- "{a}{b}" -/
+def twoTags : Bytes := [0x7b, 0x61, 0x7d, 0x7b, 0x62, 0x7d]
+
+theorem counterexample_two_tags :
+    slotSpec twoTags = 15495 ∧ (keyToSlot twoTags).toNat = 15495 ∧
+    (keyToSlotPinned twoTags).toNat = 3300 ∧ (keyToSlotPinned twoTags).toNat = slotSpec [0x62] := by
+  decide +kernel
+
+/-- what IS true of the pinned `KeyToSlot`: it follows the specification on every key with at most
+    one '{' (any number of '}', any other bytes) -/
+theorem keyToSlot_eq_spec_partial (k : Bytes) (h : k.count openBrace ≤ 1) :
+    (keyToSlotPinned k).toNat = slotSpec k := by
+  have : keyToSlotPinned k = keyToSlot k := by
+    unfold keyToSlotPinned keyToSlot hashtagOf
+    rw [scanPinned_oneOpen k 0 [] (by simp) h, scanOpen_eq k 0 (by simp)]
+    cases firstOpen k <;> rfl
+  rw [this]
+  exact keyToSlot_eq_spec k
+
+/-! ### 5. The checkpoint key chosen for a slot range hashes inside the range -/
+
+/-- the prefix every candidate starts with: `CheckpointKey` followed by what Sprintf appends -/
+def ckPrefix : Bytes := Generated.C15.checkpointKey ++ Generated.C15.checkpointSep
+
+/-- the CRC16 state after the fixed prefix, computed once (candidate from factgen, kernel-checked) -/
+theorem prefix_state : crc16 ckPrefix = Generated.C15.checkpointPrefixState := by decide +kernel
+
+theorem prefix_noBrace : ∀ c ∈ ckPrefix, c ≠ openBrace := by decide
+theorem alphabet_noBrace : ∀ c ∈ alphabet, c ≠ openBrace := by decide
+theorem alphabet_sorted : alphabet.Pairwise (· < ·) := by decide
+theorem prefix_nonempty : ckPrefix ≠ [] := by decide
+
+/-- slot of a candidate key `prefix ++ suffix` -/
+theorem candidate_slot (w : Bytes) (hw : ∀ c ∈ w, c ∈ alphabet) :
+    slotSpec (ckPrefix ++ w) = (update Generated.C15.checkpointPrefixState w).toNat % slots := by
+  unfold slotSpec
+  rw [hashedPart_noBrace, crc16, update_append, ← prefix_state]; rfl
+  intro c hc
+  rcases List.mem_append.1 hc with h | h
+  · exact prefix_noBrace c h
+  · exact alphabet_noBrace c (hw c h)
+
+/-- **chosen_in_range**: for every slot range `0 ≤ l ≤ r ≤ 16383`, `ChoseSlotInRange(CheckpointKey, l, r)`
+    returns a non-empty key — the prefix followed by a suffix of the coded length over the coded
+    alphabet — whose Redis Cluster slot lies in `[l, r]`. -/
+theorem chosen_in_range (l r : Int) (h0 : 0 ≤ l) (hlr : l ≤ r) (hr : r ≤ 16383) :
+    let k := choseSlotInRange Generated.C15.checkpointKey l r
+    k ≠ [] ∧ inRange l r (slotSpec k) = true ∧
+    ∃ s, IsSuffix Generated.C15.suffixLen s ∧ k = ckPrefix ++ s := by
+  -- a witness suffix for the slot `l`
+  obtain ⟨x, hx⟩ := witness_all l.toNat (by omega)
+  obtain ⟨w, hsuf, hslot⟩ := rowOK_spec x _ hx
+  have hhit : judge l r (slotSpec (ckPrefix ++ w)) = true := by
+    rw [candidate_slot w hsuf.2, hslot, judge, inRange_iff]; omega
+  obtain ⟨k, hk⟩ := dfs_complete (judge l r) _ ckPrefix w hsuf hhit
+  obtain ⟨s, hs, rfl, hj⟩ := dfs_sound (judge l r) _ _ _ hk
+  have e : choseSlotInRange Generated.C15.checkpointKey l r = ckPrefix ++ s := by
+    unfold choseSlotInRange; rw [show Generated.C15.checkpointKey ++ Generated.C15.checkpointSep = ckPrefix from rfl, hk]; rfl
+  simp only [e]
+  refine ⟨?_, hj, s, hs, rfl⟩
+  intro h
+  exact prefix_nonempty (List.append_eq_nil_iff.1 h).1
+
+/-- non-vacuity: the whole slot space, a single slot, and a typical third of the cluster -/
+example := chosen_in_range 0 16383 (by decide) (by decide) (by decide)
+example := chosen_in_range 16383 16383 (by decide) (by decide) (by decide)
+example := chosen_in_range 5461 10922 (by decide) (by decide) (by decide)
+
+/-- the key chosen is the FIRST hit of the search in lexicographic order of the suffix, so the
+    checkpoint name of a shard is a function of its range alone (stable across restarts) -/
+theorem chosen_is_first_hit (l r : Int) (k : Bytes)
+    (hk : pickSuffixDfs (judge l r) Generated.C15.suffixLen ckPrefix = some k) :
+    ∃ s, IsSuffix Generated.C15.suffixLen s ∧ k = ckPrefix ++ s ∧ inRange l r (slotSpec k) = true ∧
+      ∀ s', IsSuffix Generated.C15.suffixLen s' → inRange l r (slotSpec (ckPrefix ++ s')) = true → ¬ s' < s :=
+  dfs_returns_first_hit (judge l r) alphabet_sorted _ _ _ hk
+
+/-! ### 6. Every checkpoint key is excluded by the key filter -/
+
+/-- any key that starts with `CheckpointKey` is filtered, whatever the black/white lists say -/
+theorem checkpoint_keys_filtered (black white : List Bytes) (s : Bytes) :
+    filterKey black white (Generated.C15.checkpointKey ++ s) = true := by
+  unfold filterKey
+  split
+  · rfl
+  · have : Generated.C15.checkpointKey.isPrefixOf (Generated.C15.checkpointKey ++ s) = true := by
+      rw [List.isPrefixOf_iff_prefix]; exact List.prefix_append _ _
+    simp [this]
+
+/-- **chosen_filtered**: whatever `ChoseSlotInRange` returns for the checkpoint prefix — for ANY `l`, `r`,
+    if it returns a key at all — is excluded by `FilterKey` under every configuration -/
+theorem chosen_filtered (black white : List Bytes) (l r : Int)
+    (hne : choseSlotInRange Generated.C15.checkpointKey l r ≠ []) :
+    filterKey black white (choseSlotInRange Generated.C15.checkpointKey l r) = true := by
+  unfold choseSlotInRange at hne ⊢
+  cases h : pickSuffixDfs (judge l r) Generated.C15.suffixLen (Generated.C15.checkpointKey ++ Generated.C15.checkpointSep) with
+  | none => rw [h] at hne; exact absurd rfl hne
+  | some k =>
+    obtain ⟨s, _, rfl, _⟩ := dfs_sound _ _ _ _ h
+    simp only [Option.getD, List.append_assoc]
+    exact checkpoint_keys_filtered black white _
+
+theorem chosen_filtered_in_range (black white : List Bytes) (l r : Int) (h0 : 0 ≤ l) (hlr : l ≤ r) (hr : r ≤ 16383) :
+    filterKey black white (choseSlotInRange Generated.C15.checkpointKey l r) = true :=
+  chosen_filtered black white l r (chosen_in_range l r h0 hlr hr).1
+
+
+/-! ### 7. The latency monitor's key search uses the same slot function -/
+
+theorem latencyPrefix_noBrace : ∀ c ∈ Generated.C15.latencyKeyPrefix, c ≠ openBrace := by decide
+
+/-- the slot computed by the latency monitor for its synthetic keys is the Redis Cluster slot -/
+theorem latencySlot_eq_spec (i : Nat) : latencySlot (latencyKey i) = slotSpec (latencyKey i) := by
+  unfold latencySlot slotSpec
+  rw [hashedPart_noBrace, masks_spec.2.2, crc16_latency_eq_spec, mask_mod]; rfl
+  intro c hc
+  rcases List.mem_append.1 hc with h | h
+  · exact latencyPrefix_noBrace c h
+  · exact itoa_noBrace i c h
+
+/-- whenever the search of `findKeyInRange` stops, it stops at a synthetic key whose Redis Cluster
+    slot lies in `[min, max]`, and no smaller index would have done -/
+theorem findKeyFrom_sound (min max : Int) : ∀ (fuel i : Nat) (k : Bytes), findKeyFrom min max fuel i = some k →
+    ∃ j, i ≤ j ∧ k = latencyKey j ∧ inRange min max (slotSpec k) = true ∧
+      ∀ j', i ≤ j' → j' < j → inRange min max (slotSpec (latencyKey j')) = false := by
+  intro fuel
+  induction fuel with
+  | zero => intro i k h; simp [findKeyFrom] at h
+  | succ n ih =>
+    intro i k h
+    simp only [findKeyFrom] at h
+    split at h
+    · rename_i hin
+      simp at h; subst h
+      rw [latencySlot_eq_spec] at hin
+      exact ⟨i, Nat.le_refl _, rfl, hin, fun j' h1 h2 => by omega⟩
+    · rename_i hin
+      obtain ⟨j, hj, rfl, hr, hmin⟩ := ih _ _ h
+      refine ⟨j, by omega, rfl, hr, ?_⟩
+      intro j' h1 h2
+      by_cases e : j' = i
+      · subst e; rw [latencySlot_eq_spec] at hin; simpa using hin
+      · exact hmin j' (by omega) h2
+
+theorem findKeyInRange_sound (fuel : Nat) (min max : Int) (k : Bytes) (h : findKeyInRange fuel min max = some k) :
+    ∃ j, k = latencyKey j ∧ inRange min max (slotSpec k) = true ∧
+      ∀ j', j' < j → inRange min max (slotSpec (latencyKey j')) = false := by
+  obtain ⟨j, _, hk, hr, hmin⟩ := findKeyFrom_sound min max fuel 0 k h
+  exact ⟨j, hk, hr, fun j' h => hmin j' (Nat.zero_le _) h⟩
+/-- the CRC16 state after the latency key prefix, computed once (candidate from factgen, kernel-checked) -/
+theorem latency_prefix_state : crc16 Generated.C15.latencyKeyPrefix = Generated.C15.latencyPrefixState := by
+  decide +kernel
+
+theorem latency_key_slot (i : Nat) :
+    slotSpec (latencyKey i) = (update Generated.C15.latencyPrefixState (itoa i)).toNat % slots := by
+  unfold slotSpec latencyKey
+  rw [hashedPart_noBrace, crc16, update_append, ← latency_prefix_state]; rfl
+  intro c hc
+  rcases List.mem_append.1 hc with h | h
+  · exact latencyPrefix_noBrace c h
+  · exact itoa_noBrace i c h
+
+/-- **latency_key_search_terminates**: for every slot range `0 ≤ l ≤ r ≤ 16383` the (unbounded) loop of
+    `findKeyInRange` stops within `latencyMaxIndex + 1` (= 147 918) iterations — a second regenerated,
+    kernel-checked witness table gives for every slot an index whose key hashes to it — and the key
+    it returns has its Redis Cluster slot in `[l, r]`. -/
+theorem latency_key_search_terminates (l r : Int) (h0 : 0 ≤ l) (hlr : l ≤ r) (hr : r ≤ 16383) :
+    ∃ k, findKeyInRange (Generated.C15.latencyMaxIndex + 1) l r = some k ∧
+      inRange l r (slotSpec k) = true ∧ ∃ j, j ≤ Generated.C15.latencyMaxIndex ∧ k = latencyKey j := by
+  obtain ⟨i, hi⟩ := lat_witness_all l.toNat (by omega)
+  simp only [latRowOK, Bool.and_eq_true, decide_eq_true_eq, beq_iff_eq] at hi
+  have hhit : inRange l r (latencySlot (latencyKey i)) = true := by
+    rw [latencySlot_eq_spec, latency_key_slot, hi.2, inRange_iff]; omega
+  obtain ⟨k, hk⟩ := findKeyFrom_complete l r (Generated.C15.latencyMaxIndex + 1) 0 i (Nat.zero_le _) (by omega) hhit
+  obtain ⟨j, hkj, hr', hmin⟩ := findKeyInRange_sound _ l r k hk
+  refine ⟨k, hk, hr', j, ?_, hkj⟩
+  -- the search returns the FIRST hit, which cannot lie beyond the witness
+  apply Nat.le_of_not_lt
+  intro hlt
+  have := hmin i (by omega)
+  rw [← latencySlot_eq_spec, hhit] at this
+  exact absurd this (by decide)
+
+example := latency_key_search_terminates 0 16383 (by decide) (by decide) (by decide)
+example := latency_key_search_terminates 8000 8000 (by decide) (by decide) (by decide)
+
 end RSVerif.Properties.C15
